@@ -278,21 +278,41 @@ def o6(W, ob):
                      '(a session whose events are never drained would exceed the documented bound)' % short(f.path), where(f, t.line),
                      witness=path_str(f, p) if p else None)
     ob.require_count(n, 12, 'pushes to session event queues')
-    # the trim itself: pop_front while len > MAX
+    # the trim itself: the oldest events are dropped until at most MAX remain -- `while len > MAX { pop_front }` or one `drain(..len - MAX)` under `len > MAX`
+    from .sem import linearise
+    mx = W.const('MAX_EVENT_QUEUE_SIZE')
     for name in (P2P + '::trim_event_queue', SP + '::handle_event'):
         f = W.fn(name)
         cx = W.ctx(f)
-        pops = [t for t in f.calls() if last_seg(t.callee.best) == 'pop_front' and cx.ap_carry(t.args[0].place).s(f) == 'self.event_queue']
-        ob.require_count(len(pops), 1, 'pop_front in %s' % short(f.path))
-        for t in pops:
+        shr = [t for t in f.calls() if last_seg(t.callee.best) in ('pop_front', 'drain', 'truncate', 'pop_back', 'clear', 'retain', 'split_off') and t.args and
+               t.args[0].is_place() and cx.ap_carry(t.args[0].place).s(f) == 'self.event_queue']
+        ob.require_count(len(shr), 1, 'trim of the event queue in %s' % short(f.path))
+        for t in shr:
             g = W.guard(f, t.bb)
-            ok = every_disjunct_has(g, lambda a: match_lin(a, [(has('len(self.event_queue)'), 1)], lo=101))
-            ob.check(ok, '%s|trim-bound' % short(f.path), 'the oldest event is dropped while more than 100 are queued',
-                     'pop_front guard: ' + dnf_str(g)[:200], where(f, t.line))
-            # it is a loop: after the pop the length is tested again
-            lens = [x.bb for x in f.calls() if last_seg(x.callee.best) == 'len' and cx.ap_carry(x.args[0].place).s(f) == 'self.event_queue']
-            ob.check(any(l in cfg_of(f).reachable_after(t.bb) for l in lens), '%s|trim-loop' % short(f.path), 'trimming repeats until the bound holds',
-                     'the trim is not a loop', where(f, t.line))
+            seg = last_seg(t.callee.best)
+            ok = every_disjunct_has(g, lambda a: match_lin(a, [(has('len(self.event_queue)'), 1)], lo=mx + 1))
+            ob.check(ok, '%s|trim-bound' % short(f.path), 'the oldest events are dropped while more than %d are queued' % mx,
+                     '%s guard: ' % seg + dnf_str(g)[:200], where(f, t.line))
+            if seg == 'pop_front':
+                # it is a loop: after the pop the length is tested again
+                lens = [x.bb for x in f.calls() if last_seg(x.callee.best) == 'len' and cx.ap_carry(x.args[0].place).s(f) == 'self.event_queue']
+                ob.check(any(l in cfg_of(f).reachable_after(t.bb) for l in lens), '%s|trim-loop' % short(f.path), 'trimming repeats until the bound holds',
+                         'the trim is not a loop', where(f, t.line))
+            elif seg == 'drain':
+                e = cx.expr_operand(t.args[1])
+                okd = False
+                if e[0] == 'agg' and e[1] in ('RangeTo', 'Range'):
+                    fields = dict(e[2])
+                    start_ok = 'start' not in fields or fields['start'] == ('int', 0)
+                    try:
+                        vec, c = linearise(fields['end'])
+                        okd = start_ok and len(vec) == 1 and list(vec.values()) == [1] and 'len(self.event_queue)' in list(vec)[0] and c == -mx
+                    except Exception:
+                        okd = False
+                ob.check(okd, '%s|trim-loop' % short(f.path), 'one drain removes exactly the excess over the bound from the front',
+                         'the drain does not remove `len - %d` elements from the front: %s' % (mx, key(e)[:120]), where(f, t.line))
+            else:
+                ob.fail('%s|trim-loop' % short(f.path), 'the event queue is trimmed with `%s`, which does not drop the OLDEST events down to the bound' % seg, where(f, t.line))
 
 
 def o7(W, ob):
@@ -331,6 +351,8 @@ from . import helpers, wiring
 
 from . import initial
 
+from . import removals
+
 OBLIGATIONS = [
     ('C12.O1', 'typestate', 'the transition relation extracted from all stores to UdpProtocol.state with their guards is the '
      'reviewed one; remote_magic is stored only on the ->Running edge.', o1),
@@ -346,7 +368,9 @@ OBLIGATIONS = [
      '`while len > MAX_EVENT_QUEUE_SIZE { pop_front }`.', o6),
     ('C12.O7', 'Disconnected is terminal', 'both handle_event implementations stop the endpoint on Event::Disconnected; poll/handle_message '
      'emit events only while Running.', o7),
+    ('C12.O9', 'every accepted message is a sign of life', 'in handle_message the one store to last_recv_time lies on every path from entry to the dispatch of the message (all 8 kinds, every protocol state incl. the handshake): the interruption / disconnect timers measure silence since the last accepted packet.', c07.liveness_refresh),
     ('C12.H', 'helpers the rules above rely on', 'the bodies of the helpers named by this property\'s rules compute what the rules assume (protocol_state_tests); see rules/helpers.py', helpers.bundle('protocol_state_tests')),
     ('C12.W', 'configuration wiring', 'at every call site that passes a field read `x.B` for a parameter `A` the callee has no same-typed parameter `B`; in every struct literal no parameter `B` is stored in field `A` while a same-typed parameter `A` / field `B` exists (builder -> constructor -> endpoint fields: timeouts, window, fps are not crossed); see rules/wiring.py', wiring.rule),
     ('C12.I', 'initial state', 'every constructor gives the fields this property\'s rules interpret (NULL_FRAME = none / nothing yet, 0 = first frame, latches open, typestate start) the value listed in tables/initial_state.json; every field compared with NULL_FRAME anywhere is listed; see rules/initial.py', initial.rule_for('C12')),
+    ('C12.R', 'who may remove', 'every call that takes elements out of a collection this property\'s rules rely on (keyed removal from a map, or bulk / positional removal) is one of the reviewed sites in tables/removals.json; a lookup turned into a removal, a second prune, a clear on another path is reported; see rules/removals.py', removals.rule_for('C12')),
 ]
